@@ -36,7 +36,8 @@ LEVEL_NOTE = (
     "from the produced octets; NPDU > 254 and hop count outside 0..7 must raise - at construction, on assignment or in to_knx, also when "
     "every flags field is assigned on an already built and once serialised frame - (class recorded, not judged; since xknx e78d597 "
     "GroupValueWrite/Response refuse over-long values already when created - counted - so the frame-level limit is exercised by replacing "
-    "the value of a valid payload afterwards, as Data Secure replaces payloads).  Re-serialisation: allowed "
+    "the value of a valid payload afterwards, as Data Secure replaces payloads, and - since 170b3d1 made those encoders re-validate - by "
+    "over-long FunctionPropertyCommand APDUs, whose own encoder has no limit).  Re-serialisation: allowed "
     "to differ = FT bit, reserved Ctrl1 bit 6 (DESIGN §7), reserved application bits.  Byte-exact APDU comparison is restricted to "
     "services whose encoding I transcribed from the Application Layer document (GroupValueRead/Write/Response, IndividualAddressRead/"
     "Write/Response, ADCRead/Response, MemoryRead/Write/Response, DeviceDescriptorRead/Response; reserved low six bits masked where the "
@@ -92,13 +93,21 @@ def _gv_payload(length: int, rng: random.Random, response: bool = False) -> APCI
         # refusal is still exercised: replace the value afterwards, as Data Secure replaces payloads.
         if length <= 254:
             raise
+        _gv_payload.refused_at_creation += 1
+        if _gv_payload.refused_at_creation % 2:
+            # a service whose own encoder has no length limit: only the frame-level check can refuse it
+            # (since xknx 170b3d1 the group value encoders re-validate a replaced value themselves)
+            from xknx.telegram.apci import FunctionPropertyCommand
+
+            _gv_payload.overlong_other_service += 1
+            return FunctionPropertyCommand(object_index=1, property_id=2, data=bytes(data[: length - 3]))
         obj = cls(DPTArray((0,)))
         obj.value = DPTArray(data)
-        _gv_payload.refused_at_creation += 1
         return obj
 
 
 _gv_payload.refused_at_creation = 0
+_gv_payload.overlong_other_service = 0
 
 
 def _variant_apdus(ctx) -> list[tuple[str, bytes]]:
@@ -507,4 +516,6 @@ def run(ctx):
                 "variant_apdus", "service_instances")
     _built_frames(ctx)
     ctx.count("overlong_group_value_refused_at_creation_already", _gv_payload.refused_at_creation)
+    ctx.count("overlong_apdu_of_a_service_without_own_length_limit", _gv_payload.overlong_other_service)
+    ctx.require("overlong_apdu_of_a_service_without_own_length_limit")
     _received_frames(ctx)
